@@ -55,6 +55,11 @@ def negate(n: ast.expr) -> ast.expr:
         other = "all" if kind == "any" else "any"
         g = ast.GeneratorExp(negate(gen.elt), gen.generators)
         return ast.Call(ast.Name(other, ast.Load()), [g], [])
+    # any([a, b]) <-> all([not a, not b]) over literal sequences
+    lit = _literal_seq(n)
+    if lit is not None:
+        other = "all" if n.func.id == "any" else "any"  # type: ignore[attr-defined]
+        return ast.Call(ast.Name(other, ast.Load()), [ast.List([negate(v) for v in lit], ast.Load())], [])
     return ast.UnaryOp(ast.Not(), n)
 
 
